@@ -67,6 +67,8 @@ type Spec struct {
 	ID            string `json:"id"`
 	TENameMixed   bool   `json:"temix,omitempty"`
 	TrName        string `json:"trname,omitempty"`         // trailer field name (default X-Tr)
+	Multipart     bool   `json:"multipart,omitempty"`      // FCL only: a multipart/form-data body whose bytes after the closing boundary (epilogue, RFC 2046) fill it up to BodyLen
+	ChunkExt      bool   `json:"chunk_ext,omitempty"`      // chunked framings: every chunk-size line carries a chunk extension (RFC 7230 4.1.1: recipients ignore unknown ones)
 	TrUnannounced bool   `json:"tr_unannounced,omitempty"` // FChunkedTrailer without a Trailer header field: the section must be consumed, its delivery is not demanded
 }
 
@@ -74,6 +76,7 @@ type Expect struct {
 	Method      string
 	Target      string
 	Body        []byte
+	BodyOpaque  bool             // the framework replaces the body by its parsed form (multipart): only framing is judged, not the bytes handed to the handler
 	Custom      []httpref.Header // header fields that must be visible to the handler (multiset)
 	Trailers    []httpref.Header
 	Expect100   bool
@@ -153,6 +156,15 @@ func Build(s Spec) ([]byte, Expect) {
 	if s.Framing == FNone {
 		body = nil
 	}
+	if s.Multipart && s.Framing == FCL {
+		form := "--xx\r\nContent-Disposition: form-data; name=\"a\"\r\n\r\nv\r\n--xx--\r\n"
+		if len(body) > len(form)+8 {
+			copy(body, form)
+			copy(body[len(form):], "\r\n\r\n\r\n") // then the usual filler: a terminator-and-request look-alike
+			w.WriteString("Content-Type: multipart/form-data; boundary=xx\r\n")
+			ex.BodyOpaque = true
+		}
+	}
 	ex.Body = body
 	// near-miss framing name placed BEFORE the real framing header
 	if s.NearMiss > 0 {
@@ -231,18 +243,26 @@ func Build(s Spec) ([]byte, Expect) {
 			w.WriteString("Transfer-Encoding: chunked\r\n\r\n")
 		}
 		for _, c := range chunks(body, s.Part) {
+			ext := ""
+			if s.ChunkExt {
+				ext = ";name=value"
+			}
 			switch s.Part {
 			case PHexUpper:
-				fmt.Fprintf(&w, "%X\r\n", len(c))
+				fmt.Fprintf(&w, "%X%s\r\n", len(c), ext)
 			case PLeadZero:
-				fmt.Fprintf(&w, "00%x\r\n", len(c))
+				fmt.Fprintf(&w, "00%x%s\r\n", len(c), ext)
 			default:
-				fmt.Fprintf(&w, "%x\r\n", len(c))
+				fmt.Fprintf(&w, "%x%s\r\n", len(c), ext)
 			}
 			w.Write(c)
 			w.WriteString("\r\n")
 		}
-		w.WriteString("0\r\n")
+		if s.ChunkExt {
+			w.WriteString("0;last\r\n")
+		} else {
+			w.WriteString("0\r\n")
+		}
 		if s.Framing == FChunkedTrailer {
 			w.WriteString(trName + ": tv\r\n")
 			if !s.TrUnannounced {
